@@ -51,8 +51,11 @@ type Part struct {
 	Thorough         Budget         `json:"thorough"`
 	Params           map[string]any `json:"params"`
 	CrashIsViolation bool           `json:"crash_is_violation"`
-	Workers          int            `json:"workers"`
-	Tags             string         `json:"tags"`
+	// crashes whose class key contains one of these strings are violations of this part's property
+	// (for parts that otherwise leave engine panics to C09)
+	CrashViolationMatch []string `json:"crash_violation_match"`
+	Workers             int      `json:"workers"`
+	Tags                string   `json:"tags"`
 }
 
 type PropCfg struct {
@@ -830,7 +833,16 @@ func check(prop, tier string, onlyPart string) int {
 				if strings.HasPrefix(r.Key, "panicked-after-restart/") {
 					ps.Violations++
 				}
-				if part.CrashIsViolation || strings.HasPrefix(r.Key, "panicked-after-restart/") {
+				matched := false
+				for _, m := range part.CrashViolationMatch {
+					if strings.Contains(r.Key, m) {
+						matched = true
+					}
+				}
+				if matched {
+					ps.Violations++
+				}
+				if part.CrashIsViolation || matched || strings.HasPrefix(r.Key, "panicked-after-restart/") {
 					byKey[r.Key] = append(byKey[r.Key], r)
 				}
 			case "violation":
@@ -1036,9 +1048,15 @@ func check(prop, tier string, onlyPart string) int {
 		"wall_s":      wall,
 		"violations":  newViolations,
 	}
-	os.MkdirAll(filepath.Join(verifDir, "evidence"), 0o755)
+	evDir := filepath.Join(verifDir, "evidence")
+	if repoDir != "/repo" || onlyPart != "" {
+		// a run against some other tree (a seeded change in a scratch copy), or of one part only,
+		// is not the evidence of this property's check on /repo
+		evDir = envOr("VERIF_EVIDENCE_DIR", "/tmp/verif-evidence-partial")
+	}
+	os.MkdirAll(evDir, 0o755)
 	b, _ := json.MarshalIndent(ev, "", " ")
-	if err := os.WriteFile(filepath.Join(verifDir, "evidence", prop+".json"), b, 0o644); err != nil {
+	if err := os.WriteFile(filepath.Join(evDir, prop+".json"), b, 0o644); err != nil {
 		fatal2("%v", err)
 	}
 	for _, s := range stats {
